@@ -271,6 +271,14 @@ def foreign_heads(code, spec, allow=()) -> List[str]:
     return sorted(h for h in heads_of(code) if h not in hs and h not in VALUE_CHANGING)
 
 
+def same_extent(a, b) -> bool:
+    """two symbolic extents are the same count: equal, or one is the other clamped at zero (`max(n, 0)` of a count n: an extent is never negative)"""
+    from ..values import minmax_atom
+    if a is None or b is None:
+        return False
+    return a == b or a == minmax_atom('max', [C(0), b]) or b == minmax_atom('max', [C(0), a])
+
+
 def value_changing_heads(code, spec) -> List[str]:
     """value-changing library calls (clamping, rounding, ...) the code's value mentions and the documented value does not: a mismatch that goes through
     one of them is a violation whatever else the construction uses"""
